@@ -3,6 +3,7 @@ use crate::{
     shell::Shell,
     sys::{self, users},
 };
+use std::fmt::Write as _;
 use std::path::Path;
 
 const VERSION_MAJOR: &str = env!("CARGO_PKG_VERSION_MAJOR");
@@ -216,8 +217,14 @@ where
             datetime.format("%a %b %d").to_string()
         }
         brush_parser::prompt::PromptDateFormat::Custom(fmt) => {
+            // An unsupported conversion makes the formatter fail (and `to_string` panic);
+            // the format text is then shown as it is.
             let fmt_items = chrono::format::StrftimeItems::new(fmt);
-            datetime.format_with_items(fmt_items).to_string()
+            let mut formatted = String::new();
+            if write!(formatted, "{}", datetime.format_with_items(fmt_items)).is_err() {
+                return fmt.clone();
+            }
+            formatted
         }
     }
 }
